@@ -9,7 +9,7 @@ import Verif.Model.SCEP
   `facts`                                   → the message-type sets of `Verif.SCEP.asCoded`, rendered exactly
                                               like the harness's source extractor renders what it finds
   `pki meth=get|post|head|other path=root|name|rest lookup=scep|other|missing|badesc qok= op=pki|cacert|cacaps|none|other
-       ppair=<cert><key> ddec=<cert><key> dsig=<cert><key> inter=<n> roots=<n> exint= incroot= caps=x<hex>,…|- enc= minlen= conv=<conversions through the admin database>
+       ppair=<cert><key> ddec=<cert><key> dsig=<cert><key> inter=<n> roots=<n> exint= incroot= caps=x<hex>,…|- enc= minlen= conv=<conversions through the admin database> kcert=<key>|! kpem=<key>|! kuri=<key>|! listener=mux|tls|insecure reloads=<n>
        http= p7= tid= mt=x<hex>|! sn=ok|empty|none st=x<hex>|! rn= fi= inner= decp= decd=
        env=csr|badsig|nocsr|cperr cp=x<hex> degen=<n>|! cn=x<hex> sans=<d|e|i|u>:x<hex>,…|- cnk=<d|e|i|u> forcecn= signok= certs=<r|n per certificate>|- signer=<pos>|!
        secret=x<hex> hooks=<kind>:<ct>:<a|d|e>,…|- inits=<times Init ran on the provisioner object, ≥ 1>`
@@ -192,7 +192,8 @@ def wiringS : String :=
   let methods := [Meth.get, .post, .head, .other].filter fun m =>
     !(opsOf .get m).isEmpty || !(opsOf .post m).isEmpty
   s!"routes={joinS routes} getops={joinS ((opsOf .get .get).map opNameS)} postops={joinS ((opsOf .post .post).map opNameS)} " ++
-  s!"methods={joinS (methods.map methS)} mounts={joinS (mountsAsCoded.map fun (a, b) => a ++ ":" ++ b)} gethead={joinS getHeadAsCoded}"
+  s!"methods={joinS (methods.map methS)} mounts={joinS (mountsAsCoded.map fun (a, b) => a ++ ":" ++ b)} gethead={joinS getHeadAsCoded} " ++
+  s!"reloads={joinS (reloadsAsCoded.map fun (a, b) => if b = "" then a else a ++ ":" ++ b)}"
 
 def eval (line : String) : Option String := do
   let fs := fields line
@@ -230,7 +231,15 @@ def eval (line : String) : Option String := do
       signer := ← degen? (← lookup kv "signer") }
     let c0 : Config := { secret := ← str? (← lookup kv "secret"), hooks := ← hooks? (← lookup kv "hooks") }
     let inits ← (← lookup kv "inits").toNat?
-    let pp ← pair? (← lookup kv "ppair")
+    -- the provisioner's own key material: which key the certificate certifies, the PEM holds, the URI names
+    let keys : KeyCfg := {
+      cert := ← degen? (← lookup kv "kcert"), pem := ← degen? (← lookup kv "kpem"), uri := ← degen? (← lookup kv "kuri") }
+    let kst := initKeys keys
+    let pp : KeyPair := match kst with | some st => st.pair | none => ⟨keys.cert.isSome, false⟩
+    -- the listener the request arrives on and the number of reloads before it: both listeners serve the
+    -- configuration of the last reload (`served_after_reloads`), which is the one on this line
+    let _ ← match (← lookup kv "listener") with | "mux" => some () | "tls" => some () | "insecure" => some () | _ => none
+    let _ ← (← lookup kv "reloads").toNat?
     -- the configuration as written, then as it is in force: `conv` conversions through the admin database
     let pcfg0 : ProvCfg := {
       cfg := c0, forceCN := ← bool? (← lookup kv "forcecn"), caps := ← strList? (← lookup kv "caps"),
@@ -243,7 +252,7 @@ def eval (line : String) : Option String := do
       meth := ← meth? (← lookup kv "meth")
       path := ← path? (← lookup kv "path")
       -- a name that resolves to this configuration finds a SCEP provisioner only if `Init` accepted it
-      lookup := lookupOf (← lookup? (← lookup kv "lookup")) pcfg
+      lookup := lookupOfKeys (← lookup? (← lookup kv "lookup")) pcfg keys
       queryOk := ← bool? (← lookup kv "qok")
       op := ← op? (← lookup kv "op")
       decProv := ← bool? (← lookup kv "decp")
@@ -259,7 +268,12 @@ def eval (line : String) : Option String := do
       caps := ← strList? (← lookup kv "caps")
       encAlg := ← (← lookup kv "enc").toNat? }
     -- the handlers run on the controllers of the provisioner object, initialised `inits` times
-    pure (servedS S q iss (serve (← tables kv) routesAsCoded S (initN inits (Prov.new c)) h q))
+    let out := servedS S q iss (serve (← tables kv) routesAsCoded S (initN inits (Prov.new c)) h q)
+    -- a reply signed with the provisioner's own pair verifies iff its signer is the certified key
+    let sigOk := match kst with | some st => st.signatureVerifies | none => true
+    let signedByProv := (out.splitOn "signer=prov").length > 1
+    let tail := match (out.splitOn " hooks=").getLast? with | some t => " hooks=" ++ t | none => ""
+    pure (if !sigOk && signedByProv then "badreply:verify" ++ tail else out)
   | "conv" :: rest =>
     let kv := kvOf rest
     let p : ProvCfg := {
@@ -274,7 +288,9 @@ def eval (line : String) : Option String := do
       decKey := ← bool? (← lookup kv "deckey") }
     let p' ← match (← lookup kv "via") with
       | "linkedca" => some (roundTrip p) | "both" => some (roundTrip p) | "json" => some p | _ => none
-    match initDefaults p' with
+    let keys : KeyCfg := {
+      cert := ← degen? (← lookup kv "kcert"), pem := ← degen? (← lookup kv "kpem"), uri := ← degen? (← lookup kv "kuri") }
+    match (if (initKeys keys).isNone then none else initDefaults p') with
     | none => pure "uninit"
     | some r =>
       let b := fun (x : Bool) => if x then "1" else "0"
